@@ -180,7 +180,7 @@ def _shape(r):
 
 
 def _n_of(shape):
-    return {"scalar": 1, "arr1": 1, "arr3": 3, "arr16": 16}[shape]
+    return {"scalar": 1, "arr1": 1, "arr3": 3, "arr16": 16, "arr6000": 6000}[shape]
 
 
 def plan(S, prop, mode, tier, avoid):
@@ -199,7 +199,8 @@ def plan(S, prop, mode, tier, avoid):
             op = {"k": k, "c": c}
             if k == "i2s":
                 sh = _shape(r)
-                op.update({"shape": sh, "pts": _pts(r, hdr, _n_of(sh)), "distort": chance(r, 0.8)})
+                op.update({"shape": sh, "pts": _pts(r, hdr, _n_of(sh)), "distort": chance(r, 0.8),
+                           "xdt": wpick(r, [("f8", 6), ("f4", 1.5), ("i4", 1)])})
             elif k == "rt":
                 find = chance(r, 0.5)
                 if avoid_pole_find and abs(hdr["crval2"]) > 89.99:
@@ -208,7 +209,7 @@ def plan(S, prop, mode, tier, avoid):
                 if find and sh == "arr16" and not chance(r, 0.2):
                     sh = "arr3"
                 op.update({"shape": sh, "pts": _pts(r, hdr, _n_of(sh)), "distort": chance(r, 0.85), "find": find,
-                           "buf": chance(r, 0.5)})
+                           "buf": chance(r, 0.5), "xdt": wpick(r, [("f8", 6), ("f4", 1.5), ("i4", 1)])})
             elif k == "jac":
                 sh = _shape(r)
                 op.update({"shape": sh, "pts": _pts(r, hdr, _n_of(sh)), "distort": chance(r, 0.8),
@@ -245,6 +246,11 @@ def plan(S, prop, mode, tier, avoid):
         idx[c] += 1
         live = [k for k in live if idx[k] < len(callers[k])]
     out = {"cfg": {"hdr": hdr, "distorted": distorted}, "ops": flat}
+    if tier == "thorough" and chance(cfg, 0.00025):
+        # thorough tier only (about 40 s of root finding): one round trip with a catalogue-sized array, for code
+        # that treats long inputs differently; "the same for scalar and array inputs" is judged on its first element
+        flat.append({"k": "rt", "c": 0, "shape": "arr6000", "pts": _pts(cfg, hdr, 6000), "distort": True, "find": True,
+                     "buf": False, "xdt": "f8"})
     by = S.py("bystander")
     if chance(by, 0.35):
         # other WCS objects (other headers, usually of the same distortion family) are created and used while
@@ -274,10 +280,19 @@ def describe(script):
 
 # =========================================================================== execute
 
-def _args(pts, shape):
+def _args(pts, shape, dt="f8"):
+    """pixel positions as the caller holds them: float64 (usual), float32 (a FITS 'E' column), integers"""
     a = np.array(pts, dtype="f8")
+    if dt == "i4":
+        a = np.round(a)
     if shape == "scalar":
+        if dt == "f4":
+            return np.float32(a[0, 0]), np.float32(a[0, 1])
+        if dt == "i4":
+            return int(a[0, 0]), int(a[0, 1])
         return float(a[0, 0]), float(a[0, 1])
+    if dt in ("f4", "i4"):
+        return a[:, 0].astype(dt), a[:, 1].astype(dt)
     return a[:, 0].copy(), a[:, 1].copy()
 
 
@@ -415,7 +430,9 @@ def execute(script, run, env):
             continue
         if k in ("i2s", "rt", "jac"):
             shape = op["shape"]
-            x, y = _args(op["pts"], shape)
+            x, y = _args(op["pts"], shape, op.get("xdt", "f8"))
+            if op.get("xdt", "f8") != "f8":
+                run.fault("pixel_positions_of_type_" + op["xdt"])
             H.last_shape = "scalar" if shape == "scalar" else "array"
             guards = []
             if c15 and shape != "scalar":
